@@ -33,7 +33,8 @@
   "CFG_NKEYS=2"
  ],
  "props": [
-  "C12"
+  "C12",
+  "C13"
  ],
  "level": "P",
  "tier": "quick",
@@ -87,7 +88,8 @@
   "CFG_NKEYS=1"
  ],
  "props": [
-  "C12"
+  "C12",
+  "C13"
  ],
  "level": "P",
  "tier": "quick",
@@ -141,7 +143,8 @@
   "CFG_NKEYS=0"
  ],
  "props": [
-  "C12"
+  "C12",
+  "C13"
  ],
  "level": "P",
  "tier": "quick",
@@ -197,7 +200,8 @@
  ],
  "props": [
   "C12",
-  "C06"
+  "C06",
+  "C13"
  ],
  "level": "P",
  "tier": "quick",
